@@ -195,7 +195,9 @@ def handle (cmd : String) (fs : List String) : String :=
   | "dirname", [a] => encodeStr (dirname (decodeStr a))
   | "basename", [a] => encodeStr (basename (decodeStr a))
   | "djoin", [a, b] => encodeStr (destdirJoin (decodeStr a) (decodeStr b))
-  | "gdp", [d, f, p] => encodeStr (getDestdirPath (decodeStr d) (decodeStr f) (decodeStr p))
+  | "gdp", [d, f, p] =>
+    let out := getDestdirPath (decodeStr d) (decodeStr f) (decodeStr p)
+    if destOk (decodeStr d) out then encodeStr out else "ERR:Meson"
   | "perms", [s] => showOptNat (permsBits (decodeStr s))
   | "sanitized", [c, u] => toString (sanitizedMode (c.toNat?.getD 0) (u.toNat?.getD 0))
   | "should", [skip, tags, hasTags, sub, tag, hasTag] =>
